@@ -29,6 +29,30 @@ def with_overflow_checks(prop, config="pm", **kw):
     return run
 
 
+def on_every_stateful_build(prop, overflow=False, **kw):
+    """The same workload on the default build and on the other tree backends / key format (`fullmerkletree`,
+    no-default-features = Optimal tree, `arkzkey`): proving and verification go through backend- and
+    loader-specific code (tree proof lookup, key parsing) that a change may touch in one configuration only. The
+    stateless configuration has no tree; its verification code is covered by C17's cross-build verdicts."""
+    def run(ctx):
+        b = ctx.build("pm")
+        ctx.run_vh(b, prop, **kw)
+        if overflow:
+            try:
+                bo = ctx.build("pm", san="ovf")
+                ctx.run_vh(bo, prop, tag=prop + "-overflow-checks", **kw)
+            except BuildFailed as e:
+                ctx.inconclusive.append("overflow-checks build failed: %s" % e.log[-600:])
+        for cfg in ("full", "optimal", "arkzkey"):
+            try:
+                bc = ctx.build(cfg)
+            except BuildFailed as e:
+                ctx.inconclusive.append("build of %s failed: %s" % (cfg, e.log[-600:]))
+                continue
+            ctx.run_vh(bc, prop, tag="%s-%s-build" % (prop, cfg), **kw)
+    return run
+
+
 def run_c09(ctx):
     b = ctx.build("pm")
     ctx.run_vh(b, "C09")
@@ -168,13 +192,13 @@ PLANS = {
             "min_evaluations": {"quick": 800, "thorough": 10000}, "min_distinct": {"quick": 80, "thorough": 200}},
     "C17": {"level": "exploration", "run": run_c17, "exhaustive_key": None,
             "min_evaluations": {"quick": 1000, "thorough": 5000}, "min_distinct": {"quick": 40, "thorough": 100}},
-    "C01": {"level": "exploration", "run": simple("C01", timeout=7200),
+    "C01": {"level": "exploration", "run": on_every_stateful_build("C01", timeout=7200),
             "min_evaluations": {"quick": 40, "thorough": 1000}, "min_distinct": {"quick": 40, "thorough": 500}},
-    "C02": {"level": "exploration", "run": simple("C02", timeout=7200),
+    "C02": {"level": "exploration", "run": on_every_stateful_build("C02", timeout=7200),
             "min_evaluations": {"quick": 1500, "thorough": 30000}, "min_distinct": {"quick": 50, "thorough": 60}},
-    "C12": {"level": "exploration", "run": with_overflow_checks("C12", timeout=7200),
+    "C12": {"level": "exploration", "run": on_every_stateful_build("C12", overflow=True, timeout=7200),
             "min_evaluations": {"quick": 200, "thorough": 1500}, "min_distinct": {"quick": 40, "thorough": 60}},
-    "C13": {"level": "exploration", "run": with_overflow_checks("C13", timeout=7200),
+    "C13": {"level": "exploration", "run": on_every_stateful_build("C13", overflow=True, timeout=7200),
             "min_evaluations": {"quick": 3000, "thorough": 60000}, "min_distinct": {"quick": 300, "thorough": 350}},
     "C06": {"level": "exploration", "run": run_tree("C06"),
             "min_evaluations": {"quick": 20000, "thorough": 500000}, "min_distinct": {"quick": 2000, "thorough": 20000}},
